@@ -576,6 +576,10 @@ MUTATIONS = [
      'desc': 'CSV pass flag computed on the average SNR instead of the worst channel',
      'edits': [('gnpy/topology/request.py', "            values[pass_field] = rsnr_min >= minosnr if rsnr_min != '' else rsnr >= minosnr",
                 "            values[pass_field] = rsnr >= minosnr")]},
+    {'id': 'c19-csv-pass-strict-at-threshold', 'props': ['C19'], 'tests': 'tests/test_parser.py',
+     'desc': 'CSV pass flag strict: a worst channel exactly at the margin-inclusive threshold is exported as not passing',
+     'edits': [('gnpy/topology/request.py', "            values[pass_field] = rsnr_min >= minosnr if rsnr_min != '' else rsnr >= minosnr",
+                "            values[pass_field] = rsnr_min > minosnr if rsnr_min != '' else rsnr >= minosnr")]},
     {'id': 'c19-csv-reverse-from-forward', 'props': ['C19'], 'tests': 'tests/test_parser.py',
      'desc': 'CSV reverse-direction columns filled from the forward metrics (served requests)',
      'edits': [('gnpy/topology/request.py', """            if 'z-a-path-metric' in path_properties.keys():
